@@ -34,6 +34,7 @@ structure FinInv (s : St) : Prop where
   nodup : IdsNodup s
   sorted : QSorted s.queue
   ent : ∀ e ∈ s.queue, e.ch ≤ s.h ∧ e.idx ≠ []
+  qra : ∀ e ∈ s.queue, e.ra ∈ s.ras.map (·.id)
   ras : RaAll (RFin s.queue s.p.dispute) s
 
 /-- everything of a state info except `next` -/
@@ -325,8 +326,9 @@ theorem RFin.congr {q : List QEntry} {d : Nat} {r r' : Rollapp} (hk : rKey r' = 
   exact RFinL.congr hk h
 
 theorem FinInv.same {s s' : St} (h : FinInv s) (hs : Same s s') : FinInv s' := by
-  refine ⟨h.nodup.of_ids hs.ids, by rw [hs.queue]; exact h.sorted, ?_, ?_⟩
+  refine ⟨h.nodup.of_ids hs.ids, by rw [hs.queue]; exact h.sorted, ?_, ?_, ?_⟩
   · intro e he; rw [hs.queue] at he; rw [hs.h]; exact h.ent e he
+  · intro e he; rw [hs.queue] at he; rw [hs.ids]; exact h.qra e he
   · intro r' hr'
     obtain ⟨r, hr, hk⟩ := hs.mem_back hr'
     rw [hs.queue, hs.p]
